@@ -80,6 +80,7 @@ type Report struct {
 	Assume     map[string]bool
 	Notes      []string
 	Unproved   []string // not claimed (baseline-unproved sweep obligations)
+	Partial    []string // sweep units whose exploration hit the tier's path budget
 	Broken     []string
 	Extra      map[string]interface{}
 	SolverSecs float64
@@ -161,6 +162,7 @@ func cmdCheck(args []string) int {
 	if tier == "" {
 		tier = "quick"
 	}
+	quickTier = tier == "quick"
 	seed, _ := strconv.Atoi(os.Getenv("VERIF_SEED"))
 	if id == "" {
 		fmt.Fprintln(os.Stderr, "usage: govc check <property>")
@@ -397,6 +399,15 @@ func runUnit(P *Program, rep *Report, c *Contract, fn *ssa.Function, id string, 
 		rep.Assume["contract of "+shortFn(fn)+" is NOT proved from its body: it is a reflexive, transitive two-state relation (both discharged) justified by induction over the call graph, whose remaining side conditions are the only-writers / callers scans (K5) of this property: "+e.inductive] = true
 	}
 	rep.mu.Unlock()
+	if e.aborted != "" && c.FromTemplate && strings.HasPrefix(e.aborted, "path budget") {
+		// a sweep unit that is too large for this tier: the obligations met on the explored paths are
+		// still discharged; the unit is listed as partially explored (nothing about the rest is claimed)
+		rep.mu.Lock()
+		rep.Partial = append(rep.Partial, shortFn(fn)+" ("+e.aborted+")")
+		rep.mu.Unlock()
+		e.aborted = ""
+		e.specErrors = nil // (evaluation was cut short by the abort)
+	}
 	if e.aborted != "" {
 		rep.add(&OblResult{Name: shortFn(fn) + "#engine", Kind: "engine", Status: "failed", Text: "symbolic execution aborted: " + e.aborted, Props: []string{id}, Fn: shortFn(fn)})
 		return
@@ -799,6 +810,7 @@ func writeEvidence(rep *Report, obligations, discharged int, backends map[string
 		"solver_seconds":               rep.SolverSecs,
 		"known_findings_still_present": kf,
 		"unproved_not_claimed":         rep.Unproved,
+		"partially_explored_sweep_units": rep.Partial,
 		"cover_queries_reachable_returns": rep.Covers,
 		"integer_semantics":            "Go integers are fixed-width bit-vectors with wrap-around (no mathematical-integer abstraction); float64 is SMT Float64 RNE",
 		"notes":                        rep.Notes,
